@@ -86,6 +86,8 @@ pub struct History {
     /// every handle drop (explicit or at the end of its thread): thread, side,
     /// stamp before, stamp after
     pub hdrops: Vec<(usize, crate::prog::Side, u64, u64)>,
+    /// per thread: stamp at which its end-of-thread drops began / were done
+    pub thread_end: Vec<(usize, u64, u64)>,
 }
 
 thread_local! {
@@ -129,6 +131,10 @@ pub fn push_call(c: Call) {
 
 pub fn push_hdrop(t: usize, side: crate::prog::Side, inv: u64, ret: u64) {
     HIST.with(|h| h.borrow_mut().hdrops.push((t, side, inv, ret)));
+}
+
+pub fn push_thread_end(t: usize, begin: u64, end: u64) {
+    HIST.with(|h| h.borrow_mut().thread_end.push((t, begin, end)));
 }
 
 pub fn take() -> History {
